@@ -311,7 +311,7 @@ MANIFEST_TEXT.update({
                "DESIGN.md §6 C12", "Lean 4 conservation law by induction over event histories + symbolic timetable + differential correspondence under virtual time"),
     "C13": _mt("Inv preserved over every history (permitted => a CreatePermission success covered the IP; ok-state binding => its ChannelBind was confirmed), data_after_permission "
                "(for ALL server reaction scripts: data goes to the named peer with the given payload only after permission; ChannelData only on a confirmed binding of exactly that peer, "
-               "Send indication otherwise; nothing when the permission fails), only_write_sends_data, channel_numbers_any_history (over ANY history with <= 16384 peers: numbers pairwise distinct, "
+               "Send indication otherwise; nothing when the permission fails), only_write_sends_data, channel_numbers_any_history (over ANY history, any number of peers: never more bindings than channel numbers, numbers pairwise distinct, "
                "in range, stable per peer, one binding per peer - NumInv preserved by every step), queue_fifo, chandata_inbound, closed_write_fails. PARTIAL: Go memory model.",
                "DESIGN.md §6 C13", "Lean 4 invariant over a state machine with server reactions as universally quantified inputs + differential correspondence with a scripted server",
                "Partial: concurrent writers modelled as interleavings of atomic steps."),
